@@ -821,3 +821,314 @@ func checkReturnAlias(c *Ctx, p *Program) {
 		c.ok("C11.retalias", "exported methods hand out copies, not their receiver's storage", fmt.Sprintf("%d slice results of exported methods inspected; %d documented exceptions", nret, nexc), "")
 	}
 }
+
+// CACHE-RESET: a decoder of a key type that memoises a derived value clears the memo.
+//
+// Key objects cache their public key (`pubOnce.Do(func() { k.pub = ... })`, or `if k.pub == nil { k.pub = ... }`
+// in an accessor). Loading other key material into such an object has to reset the cache, otherwise the
+// object keeps reporting the public key of the key it held before. The rule finds the cache fields of every
+// struct type (fields assigned inside a closure of one of its non-decoder methods, fields assigned under a
+// nil test of the same field, and sync.Once fields) and requires every decoder method of the type that
+// assigns other fields to assign those too.
+func checkCacheReset(c *Ctx, p *Program, rule string, prefixes []string) {
+	type tkey = string
+	cache := map[tkey]map[string]string{} // receiver type -> cache field -> where it is filled
+	recvType := func(f *ssa.Function) (string, *types.Struct) {
+		if f.Signature.Recv() == nil {
+			return "", nil
+		}
+		t := f.Signature.Recv().Type()
+		if pt, ok := t.Underlying().(*types.Pointer); ok {
+			t = pt.Elem()
+		}
+		st, ok := t.Underlying().(*types.Struct)
+		if !ok {
+			return "", nil
+		}
+		return t.String(), st
+	}
+	note := func(tn, field, where string) {
+		if cache[tn] == nil {
+			cache[tn] = map[string]string{}
+		}
+		if _, ok := cache[tn][field]; !ok {
+			cache[tn][field] = where
+		}
+	}
+	var methods []*ssa.Function
+	for f := range p.AllFuncs {
+		if f.Blocks != nil && isCirclFunc(f) && sourceFunc(f) && !strings.Contains(funcPkgPath(f), "/internal/test") {
+			methods = append(methods, f)
+		}
+	}
+	sort.Slice(methods, func(i, j int) bool { return methods[i].String() < methods[j].String() })
+	for _, f := range methods {
+		top := f
+		for top.Parent() != nil {
+			top = top.Parent()
+		}
+		tn, st := recvType(top)
+		if st == nil || freshDecoderName.MatchString(top.Name()) {
+			continue
+		}
+		for i := 0; i < st.NumFields(); i++ {
+			if st.Field(i).Type().String() == "sync.Once" {
+				note(tn, st.Field(i).Name(), "a sync.Once")
+			}
+		}
+		for _, b := range f.Blocks {
+			for _, in := range b.Instrs {
+				s, ok := in.(*ssa.Store)
+				if !ok {
+					continue
+				}
+				fa, ok := s.Addr.(*ssa.FieldAddr)
+				if !ok {
+					continue
+				}
+				// the field belongs to the method's receiver type
+				bt := fa.X.Type()
+				if pt, ok := bt.Underlying().(*types.Pointer); ok {
+					bt = pt.Elem()
+				}
+				if bt.String() != tn {
+					continue
+				}
+				if f.Parent() != nil {
+					// inside a closure (the body handed to sync.Once.Do)
+					note(tn, fieldName(fa), "filled in a closure of "+fname(top)+" ("+p.pos(s.Pos())+")")
+					continue
+				}
+				// under a nil test of the same field
+				for d := b; d.Idom() != nil; d = d.Idom() {
+					pd := d.Idom()
+					ifi, ok := pd.Instrs[len(pd.Instrs)-1].(*ssa.If)
+					if !ok || len(d.Preds) != 1 {
+						continue
+					}
+					bo, ok := ifi.Cond.(*ssa.BinOp)
+					if !ok || bo.Op != token.EQL || pd.Succs[0] != d {
+						continue
+					}
+					k, isK := bo.Y.(*ssa.Const)
+					ld, isLd := bo.X.(*ssa.UnOp)
+					if !isK || !k.IsNil() || !isLd {
+						continue
+					}
+					if fa2, ok := ld.X.(*ssa.FieldAddr); ok && fa2.Field == fa.Field && sameLocation(fa2.X, fa.X, 0) {
+						note(tn, fieldName(fa), "filled lazily in "+fname(top)+" ("+p.pos(s.Pos())+")")
+					}
+				}
+			}
+		}
+	}
+	n, nbad := 0, 0
+	e := newDecodeEngine(p)
+	for _, f := range freshDecoders(p) {
+		if prefixes != nil && !inScope(f, prefixes) {
+			continue
+		}
+		tn, _ := recvType(f)
+		cf := cache[tn]
+		if len(cf) == 0 {
+			continue
+		}
+		fa := e.analyseParam(f, 0, 5)
+		if fa == nil || len(fa.may) == 0 {
+			continue
+		}
+		// a decoder that loads key material: it assigns some field that is not a cache field
+		loads := false
+		for k := range fa.may {
+			if _, isCache := cf[k]; !isCache {
+				loads = true
+			}
+		}
+		if !loads {
+			continue
+		}
+		n++
+		var miss []string
+		for k, where := range cf {
+			if !fa.may[k] {
+				miss = append(miss, k+" ("+where+")")
+			}
+		}
+		construct := fname(f) + ": loading key material resets the values memoised in the object"
+		if len(miss) > 0 {
+			sort.Strings(miss)
+			nbad++
+			c.bad(rule, construct, "the decoder never assigns the cache field(s) "+strings.Join(miss, ", ")+": the object keeps reporting what was derived from the key it held before", p.fnPos(f))
+		} else {
+			c.ok(rule, construct, fmt.Sprintf("%d cache field(s) assigned", len(cf)), p.fnPos(f))
+		}
+	}
+	c.count("decoders_with_cache", n)
+	if prefixes == nil && n < 2 {
+		c.undecided(rule, "decoders of types with memoised fields", fmt.Sprintf("only %d found (floor 2)", n), "")
+	}
+	_ = nbad
+}
+
+func init() {
+	for prop, pres := range map[string][]string{"C02": {"sign/"}, "C16": {"oprf", "zk/"}, "C17": {"tss/"}} {
+		prop, pres := prop, pres
+		prev := registry[prop]
+		registry[prop] = func(c *Ctx) {
+			prev(c)
+			if p := c.Prog("amd64"); p != nil {
+				checkCacheReset(c, p, prop+".overwrite", pres)
+			}
+		}
+	}
+}
+
+// OPTFIELD: an optional component is used only where it is known to be present.
+//
+// A pointer field that some function of the package assigns nil to (`s.jointRandPart = nil` for an instance
+// without joint randomness) is optional. In the decoders and encoders of the type, a method call through
+// such a field has to be dominated by a test of the same field against nil: deciding presence from the input
+// instead (`str.Empty() || s.part.Unmarshal(str)`) dereferences nil for input the configuration did not
+// expect.
+func checkOptionalFields(c *Ctx, p *Program, rule string, prefixes []string) {
+	var fs []*ssa.Function
+	for f := range p.AllFuncs {
+		if f.Blocks != nil && isCirclFunc(f) && sourceFunc(f) && !strings.Contains(funcPkgPath(f), "/internal/test") && (prefixes == nil || inScope(f, prefixes)) {
+			fs = append(fs, f)
+		}
+	}
+	sort.Slice(fs, func(i, j int) bool { return fs[i].String() < fs[j].String() })
+	typeOf := func(fa *ssa.FieldAddr) string {
+		t := fa.X.Type()
+		if pt, ok := t.Underlying().(*types.Pointer); ok {
+			t = pt.Elem()
+		}
+		if n, ok := t.(*types.Named); ok {
+			if o := n.Origin(); o != nil {
+				return o.Obj().Pkg().Path() + "." + o.Obj().Name()
+			}
+		}
+		return t.String()
+	}
+	optional := map[string]string{} // type.field -> where nil is assigned
+	for _, f := range fs {
+		for _, b := range f.Blocks {
+			for _, in := range b.Instrs {
+				st, ok := in.(*ssa.Store)
+				if !ok {
+					continue
+				}
+				fa, ok := st.Addr.(*ssa.FieldAddr)
+				if !ok {
+					continue
+				}
+				if k, ok := st.Val.(*ssa.Const); ok && k.IsNil() {
+					if _, isPtr := st.Val.Type().Underlying().(*types.Pointer); isPtr {
+						optional[typeOf(fa)+"."+fieldName(fa)] = p.pos(st.Pos())
+					}
+				}
+			}
+		}
+	}
+	n, nbad := 0, 0
+	for _, f := range fs {
+		if f.Signature.Recv() == nil {
+			continue
+		}
+		nm := f.Name()
+		if !(freshDecoderName.MatchString(nm) || strings.HasPrefix(nm, "Marshal") || strings.HasPrefix(nm, "marshal") || strings.HasPrefix(nm, "Pack")) {
+			continue
+		}
+		recv := ssa.Value(f.Params[0])
+		for _, b := range f.Blocks {
+			for _, in := range b.Instrs {
+				ci, ok := in.(ssa.CallInstruction)
+				if !ok || ci.Common().IsInvoke() || len(ci.Common().Args) == 0 {
+					continue
+				}
+				ld, ok := ci.Common().Args[0].(*ssa.UnOp)
+				if !ok || ld.Op != token.MUL {
+					continue
+				}
+				fa, ok := ld.X.(*ssa.FieldAddr)
+				if !ok || fa.X != recv {
+					continue
+				}
+				where, isOpt := optional[typeOf(fa)+"."+fieldName(fa)]
+				if !isOpt {
+					continue
+				}
+				cal := ci.Common().StaticCallee()
+				if cal == nil || cal.Signature.Recv() == nil {
+					continue
+				}
+				n++
+				guarded := false
+				for d := b; d.Idom() != nil && !guarded; d = d.Idom() {
+					pd := d.Idom()
+					ifi, ok := pd.Instrs[len(pd.Instrs)-1].(*ssa.If)
+					if !ok || len(d.Preds) != 1 {
+						continue
+					}
+					// the comparisons known to hold on the edge taken: the condition itself, or - for a
+					// short-circuit `a && b`, which is a phi of false and b - its non-constant operands
+					var conds []*ssa.BinOp
+					onTrue := pd.Succs[0] == d
+					cv := ifi.Cond
+					for i := 0; i < 4; i++ { // `switch true { case a && b: }` compares the condition with true
+						bo, ok := cv.(*ssa.BinOp)
+						if !ok || bo.Op != token.EQL {
+							break
+						}
+						if k, ok := bo.X.(*ssa.Const); ok && k.Value != nil && k.Value.ExactString() == "true" {
+							cv = bo.Y
+						} else if k, ok := bo.Y.(*ssa.Const); ok && k.Value != nil && k.Value.ExactString() == "true" {
+							cv = bo.X
+						} else {
+							break
+						}
+					}
+					switch x := cv.(type) {
+					case *ssa.BinOp:
+						conds = append(conds, x)
+					case *ssa.Phi:
+						if onTrue {
+							for _, e := range x.Edges {
+								if bo, ok := e.(*ssa.BinOp); ok {
+									conds = append(conds, bo)
+								}
+							}
+						}
+					}
+					for _, bo := range conds {
+						k, isK := bo.Y.(*ssa.Const)
+						l2, isLd := bo.X.(*ssa.UnOp)
+						if !isK || !k.IsNil() || !isLd {
+							continue
+						}
+						f2, ok := l2.X.(*ssa.FieldAddr)
+						if !ok || f2.Field != fa.Field || f2.X != recv {
+							continue
+						}
+						if (bo.Op == token.NEQ && onTrue) || (bo.Op == token.EQL && !onTrue) {
+							guarded = true
+						}
+					}
+				}
+				if !guarded {
+					nbad++
+					c.bad(rule, fmt.Sprintf("%s: the optional component %s is used only behind a nil test of it", fname(f), fieldName(fa)),
+						fmt.Sprintf("%s is called through field %s at %s without a dominating test of the field against nil (the field is set to nil at %s)", shortCallee(p.staticCalleeName(ci.Common())), fieldName(fa), p.pos(in.Pos()), where), p.pos(in.Pos()))
+				}
+			}
+		}
+	}
+	c.count("optional_field_uses", n)
+	if n == 0 && prefixes != nil {
+		c.undecided(rule, "method calls through optional pointer fields in encoders / decoders", "none found: the rule would be vacuous", "")
+		return
+	}
+	if nbad == 0 {
+		c.ok(rule, "optional components are used only behind a nil test", fmt.Sprintf("%d method calls through pointer fields that some function sets to nil", n), "")
+	}
+}
